@@ -204,6 +204,20 @@ for tree in ("deep", "nestedprefix"):
             for verb, imp, exc in SHAPES:
                 res.append(outcome(make_rule(S, verb, imp, exc, O), arch))
         res.append(sorted(arch.modules))
+# deterministic family: nested 'sub modules of' objects [p, p.c], a subject that imports the inner package itself
+for tree in ("deep", "nestedprefix", "deeper"):
+    mods = TREES[tree]
+    for p in mods:
+        for c in mods:
+            if "." in p and c.startswith(p + "."):
+                for s in mods:
+                    if "." in s and not s.startswith(p + ".") and s != p and not p.startswith(s + "."):
+                        arch = build_arch(mods, [(s, c)])
+                        for kinds in (("sub", "sub"), ("name", "sub"), ("sub", "name")):
+                            for O in ([(kinds[0], p), (kinds[1], c)], [(kinds[1], c), (kinds[0], p)]):
+                                for verb, imp, exc in SHAPES:
+                                    res.append(outcome(make_rule([("name", s)], verb, imp, exc, O), arch))
+                                    res.append(outcome(make_rule(O if kinds[0] == kinds[1] else [O[0]], verb, imp, exc, [("name", s)]), arch))
 print(json.dumps(res))
 '''
 
@@ -220,7 +234,7 @@ def bounded_purity(tier, seed):
     b = Bounded("C15.purity-history-order-seed-independence",
                 "trees deep/prefix/nestedprefix; 24/240 import relations (related endpoints included); per graph 2 (quick) / 5 random subject/object choices (1-3 per side, related allowed) x 5 "
                 "random shapes: one rule object applied to [A, A, B, A] vs fresh rules on fresh architectures, reversed argument lists, snapshot of modules+imports before/after; "
-                "fresh interpreters with 3 (quick) / 8 hash seeds on a fixed battery; two scans of a project with shuffled directory enumeration")
+                "fresh interpreters with 6 (quick) / 12 hash seeds on a fixed battery (random rules plus the deterministic family of nested sub-module objects); two scans of a project with shuffled directory enumeration")
     rng = random.Random(seed)
     jobs = []
     for tree in ["deep", "prefix", "nestedprefix"]:
@@ -253,7 +267,7 @@ def bounded_purity(tier, seed):
                         b.violation("regex-rule-reapplied", f"one regex rule object ({side} {rx!r}, {verb}, import={imp}, except={exc}) applied to {'ABA' if order[0] is A else 'BAB'} gave {seq}; fresh rules give {want}",
                                     dict(kind="regex-reapply", side=side, verb=verb, import_=imp, except_=exc, regex=rx))
     # hash seeds: fresh interpreter per seed
-    seeds = [0, 1, 7] if tier == "quick" else [0, 1, 2, 3, 5, 7, 11, 13]
+    seeds = [0, 1, 2, 3, 5, 7] if tier == "quick" else [0, 1, 2, 3, 5, 7, 11, 13, 17, 19, 23, 29]
     from concurrent.futures import ThreadPoolExecutor
     with ThreadPoolExecutor(8) as ex:
         outs = list(ex.map(lambda hs: _hash_seed_run(hs, seed, 6 if tier == "quick" else 25), seeds))
